@@ -347,9 +347,8 @@ groups:
 			w.sum.Parts[p.label()] += ran
 			base += n
 		}
-		w.sum.Addrs = w.distinctAddrs
-		w.distinctAddrs = 0
 		w.flushGroup()
+		w.distinctAddrs = 0
 	}
 	_ = capped
 	fmt.Fprintln(w.out, `{"t":"end"}`)
